@@ -2,13 +2,6 @@ import Lemmas.SafeFileKinds
 /-! C14: `WriteFileWithMode` against the kernel with node kinds (lemmas for `Props/C14KindsWF.lean`). -/
 namespace Safe
 
-/-- `WriteFileWithMode` against the kernel: a run that would otherwise commit fails in its rename when the destination
-    is a directory -/
-def writeFileK (fs : KFS) (tmp dst : Path) (N mode : Nat) (pieces : List Bytes) (cb : CbMode) (fault : Fault) :
-    Res × List Act :=
-  writeFile tmp dst N mode pieces cb
-    (if fs dst = some .dir ∧ (writeFile tmp dst N mode pieces cb fault).1 = .ok then .rename else fault)
-
 theorem runK_map_append (u : Nat) (fs : KFS) (a b : List Act) :
     runK u fs ((a ++ b).map Act2.base) = runK u (runK u fs (a.map Act2.base)) (b.map Act2.base) := by
   rw [List.map_append, runK_append]
